@@ -58,6 +58,24 @@ def oracle (c : Call) (bansBefore : List Nat) (cacheBefore : List Lru.Entry) (o 
                   | .err _ => false))
             then ["cached-unverified"] else []
   let c6 := if (dl.zip o.prog).any (fun (r, p) => p == .finished && !good c.target r) then ["bad-response-accepted"] else []
-  c1 ++ c2 ++ c3 ++ c4 ++ c5 ++ c6
+  -- retry: the dispatcher (ours) hands the scripted responses over until the handler says Finished
+  -- (`cont`: even beyond that).  With the header known, nothing cached under the key and a nil verdict,
+  -- a valid requested block anywhere in the script must be what the call returns: the first one
+  -- (the last one if the dispatcher goes on after Finished) — however many bad peers answered before it.
+  let c7 :=
+    if c.known && c.verdict == .nil && !cacheBefore.any (fun e => e.key == k) then
+      let goods := c.resps.filter (good c.target)
+      let expected := if c.cont then goods.getLast? else goods.head?
+      match expected with
+      | none => []
+      | some g =>
+        let used := match o.result with
+          | .ret rid _ _ _ => rid == g.rid
+          | .err _ => false
+        if used then []
+        else if (c.resps.takeWhile (fun r => !good c.target r)).any (bannable c.target)
+        then ["valid-response-after-bad-peer-not-used"] else ["valid-response-not-used"]
+    else []
+  c1 ++ c2 ++ c3 ++ c4 ++ c5 ++ c6 ++ c7
 
 end Neutrino.GetBlock
